@@ -117,6 +117,9 @@ func genWire(tier string, seed int64, out func(interface{})) {
 			v := uint32(r.Intn(1000))
 			c.Rid = &v
 		}
+		if r.Intn(4) == 0 { // a caller-supplied base table, sharing names with the content
+			c.Base = [][]string{{"file1", "alpha"}, {"custom_pred", "x:y", "beta_2", "p"}, {}, {"long_name_0123456789"}}[r.Intn(4)]
+		}
 		nb := 1 + r.Intn(4)
 		for b := 0; b < nb; b++ {
 			blk := CBlock{Context: []string{"", "ctx", "a context with spaces"}[r.Intn(3)], Facts: []CPred{}, Rules: []CRule{}, Checks: [][]CRule{}}
